@@ -110,6 +110,10 @@ def build(c):
     from skchange.change_detectors import PELT, MovingWindow, SeededBinarySegmentation
     from skchange.costs import GaussianCovCost, GaussianVarCost, L2Cost
 
+    if c.get("seed", 0) % 4 == 1:  # the same numbers as NumPy scalars (np.int64 / np.float64), as they come out of array code
+        c = {k: (np.int64(v) if isinstance(v, int) and not isinstance(v, bool) and k in ("m", "M", "b", "mx", "mdi") else
+                 np.float64(v) if isinstance(v, float) and k in ("scale", "level", "g", "cs", "ps", "lo", "hi") else v) for k, v in c.items()}
+
     cost = {"default": lambda: None, "l2": L2Cost, "gauss": GaussianVarCost, "gcov": GaussianCovCost}[c["cost"]]()
     d = c["det"]
     if d == "pelt":
